@@ -7,13 +7,16 @@ From CM Require Import Lib.Str Lib.CleanSyntax Gen.Consts Clean.Model Clean.Proo
 From Coq Require Import Lia.
 Open Scope Z_scope.
 
-Definition no_faults (e : env) : Prop := faults e = [] /\ efaults e = [] /\ cancel_at e = None.
+Definition no_faults (e : env) : Prop :=
+  faults e = [] /\ efaults e = [] /\ cancel_at e = None /\ pfaults e = [] /\ kill_at e = None.
 Lemma nf_faulty e s : no_faults e -> faulty e s = false.
-Proof. intros [H _]. unfold faulty. rewrite H. reflexivity. Qed.
+Proof. intros (H & _ & _ & _ & K). unfold faulty, dead. rewrite H, K. reflexivity. Qed.
 Lemma nf_efaulty e s : no_faults e -> efaulty e s = false.
 Proof. intros [_ [H _]]. unfold efaulty. rewrite H. reflexivity. Qed.
+Lemma nf_pfaulty e s : no_faults e -> pfaulty e s = None.
+Proof. intros (_ & _ & _ & H & _). unfold pfaulty. rewrite H. reflexivity. Qed.
 Lemma nf_cancelled e s : no_faults e -> cancelled e s = false.
-Proof. intros [_ [_ H]]. unfold cancelled. rewrite H. reflexivity. Qed.
+Proof. intros [_ [_ [H _]]]. unfold cancelled. rewrite H. reflexivity. Qed.
 
 (** the storage only shrinks, except for one key *)
 Definition shrinks (s s' : store) : Prop := forall k, lookup s k = None -> lookup s' k = None.
@@ -23,6 +26,8 @@ Lemma shrinks_trans a b c : shrinks a b -> shrinks b c -> shrinks a c.
 Proof. intros H1 H2 k H. exact (H2 k (H1 k H)). Qed.
 Lemma shrinks_remove x s : shrinks s (remove x s).
 Proof. intros k H. rewrite lookup_remove. destruct (covers x k); [reflexivity | exact H]. Qed.
+Lemma shrinks_removep x keep s : shrinks s (removep x keep s).
+Proof. intros k H. rewrite lookup_removep. destruct (covers x k && negb (memk k keep)); [reflexivity | exact H]. Qed.
 
 Lemma do_load_sto e k s : sto (snd (do_load e k s)) = sto s.
 Proof. destruct (do_load e k s) as [r s1] eqn:D. exact (proj1 (do_load_spec _ _ _ _ _ D)). Qed.
@@ -33,7 +38,7 @@ Proof. destruct (do_stat e k s) as [r s1] eqn:D. exact (proj1 (do_stat_spec _ _ 
 Lemma do_delete_shrinks e k s : shrinks (sto s) (sto (snd (do_delete e k s))).
 Proof.
   destruct (do_delete e k s) as [b s1] eqn:D. cbn [snd].
-  destruct (do_delete_spec _ _ _ _ _ D) as [-> | ->]; [apply shrinks_refl | apply shrinks_remove].
+  destruct (do_delete_spec _ _ _ _ _ D) as [-> | [-> | [keep ->]]]; [apply shrinks_refl | apply shrinks_remove | apply shrinks_removep].
 Qed.
 
 Lemma staples_loop_shrinks e clk ks : forall s, shrinks (sto s) (sto (staples_loop e clk ks s)).
@@ -73,7 +78,7 @@ Section Staples.
     - apply seqb_eq in E; subst x.
       unfold do_load. rewrite (nf_faulty e s NF), Hl. cbn [logged].
       match goal with |- context [stale_staple ?t c] => rewrite (Hst _ : stale_staple t c = true) end.
-      unfold do_delete. match goal with |- context [faulty e ?s'] => rewrite (nf_faulty e s' NF), (nf_efaulty e s' NF) end.
+      unfold do_delete. match goal with |- context [faulty e ?s'] => rewrite (nf_faulty e s' NF), (nf_pfaulty e s' NF), (nf_efaulty e s' NF) end.
       apply staples_loop_shrinks. cbn [sto logged]. rewrite lookup_remove, Ck. reflexivity.
     - apply seqb_neq in E. destruct Hin as [->|Hin]; [contradiction|].
       pose proof (sibling_not_covers _ _ _ Hx Ha E) as NC.
@@ -83,8 +88,9 @@ Section Staples.
       destruct (stale_staple (rd clk s1) c'); [|exact (IH HF' s1 a v c Hin Ha Hl1 Hst k Ck)].
       destruct (do_delete e x s1) as [b s2] eqn:D.
       apply (IH HF' s2 a v c Hin Ha); try assumption.
-      destruct (do_delete_spec _ _ _ _ _ D) as [-> | ->]; [exact Hl1|].
-      rewrite lookup_remove, NC. exact Hl1.
+      destruct (do_delete_spec _ _ _ _ _ D) as [-> | [-> | [keep ->]]]; [exact Hl1| |].
+      + rewrite lookup_remove, NC. exact Hl1.
+      + rewrite lookup_removep, NC. exact Hl1.
   Qed.
 End Staples.
 
